@@ -32,4 +32,7 @@ def subchecks(tier):
     prof = common.full_profile("C04", horizon=(6.0, 18.0), plans=("max_time", "max_time", "max_time", "max_customers"), resumptions=(1, 2))
     prof.weights.update({"ps": 0.0, "inf": 0.1, "slotted": 0.05, "schedule": 0.45, "capacity": 0.5, "server_priority": 0.3})
     return [system_subcheck("lattice", prof, lambda spec: [Exclusivity(spec)], nontrivial, classes=classes,
-                            n={"quick": 9600, "thorough": 50000}, rule="finite-server lattice; attachment monitor + utilisation audit")]
+                            n={"quick": 9600, "thorough": 50000}, rule="finite-server lattice; attachment monitor + utilisation audit"),
+            system_subcheck("sched_blocked", common.region_profile("C04"), lambda spec: [Exclusivity(spec)],
+                            lambda a, spec, res: a.get("rec_interrupted_service", 0) >= 1 and a.get("blocked_records", 0) >= 1, classes=classes,
+                            n={"quick": 4800, "thorough": 30000}, rule="pre-emptive schedules x blocking region (heavy load, grid times); same monitor")]
